@@ -99,26 +99,35 @@ func validateUnconnectedProcessors(flow *FlowDirection) error {
 
 // detectCircularConnections detects circular connections in the flow graph.
 func detectCircularConnections(flowDir *FlowDirection) error {
-	if flowDir.GetFlowType().IsResponseType() && !flowDir.HasValidRoot() {
-		return nil
+	// A request walk starts at the root only. A response walk can also be entered at the
+	// node of any processor that answered the request (early response), so every node of
+	// a response direction is a possible starting point, with or without a root.
+	startNodes := []*FlowGraphNode{}
+	if flowDir.GetFlowType().IsResponseType() {
+		for _, node := range flowDir.nodes {
+			startNodes = append(startNodes, node)
+		}
+	} else {
+		startNodes = append(startNodes, flowDir.root.node)
 	}
 
-	rootEdges := flowDir.root.node.edges
-	for _, connection := range rootEdges {
-		if connection.node == nil {
-			continue
+	for _, startNode := range startNodes {
+		for _, connection := range startNode.edges {
+			if connection.node == nil {
+				continue
+			}
+			log.Trace().
+				Str("flowGraphName", connection.node.flowGraphName).
+				Msgf("Validating no circular connections for processor %s", connection.node.processorKey)
+			visitedByCondition := make(
+				map[string]map[string]bool,
+			) // key - condition, value - processorKey
+			proc := connection.node.processorKey
+			if !dfsDetectCycles(connection.node, visitedByCondition, proc, connection.condition) {
+				return fmt.Errorf("circular connection detected - processor '%s'", proc)
+			}
+			log.Trace().Msgf("No cycle detected for processor %s", proc)
 		}
-		log.Trace().
-			Str("flowGraphName", connection.node.flowGraphName).
-			Msgf("Validating no circular connections for processor %s", connection.node.processorKey)
-		visitedByCondition := make(
-			map[string]map[string]bool,
-		) // key - condition, value - processorKey
-		proc := connection.node.processorKey
-		if !dfsDetectCycles(connection.node, visitedByCondition, proc, connection.condition) {
-			return fmt.Errorf("circular connection detected - processor '%s'", proc)
-		}
-		log.Trace().Msgf("No cycle detected for processor %s", proc)
 	}
 
 	return nil
